@@ -38,6 +38,13 @@ void drv_c19_hist(int tier, unsigned long seed, const char *extra) {
       if (what == 1 && arg == 0) arg = 1;
       /* twin states: the same call on both must give the same output (reproducibility ghost in the specification) */
       draw(0, what, arg, 0); draw(1, what, arg, 1);
+      if (step == 14) {   /* re-seeding a state that has been used restarts its history: it must now agree with a FRESH state given the same seed */
+        int sk2 = (sk + 1) % 3; static const uint64_t su[] = {0, 1, 0xffffffffffffffffUL};
+        callf("gmp_randseed_ui", 0, su[sk2] + (uint64_t)(j == 3 ? 41 : 0)); init_kind(2, kind, par); callf("gmp_randseed_ui", 2, su[sk2] + (uint64_t)(j == 3 ? 41 : 0));
+        draw(0, 2, 130, 2); draw(2, 2, 130, 3); draw(0, 0, 64, 2); draw(2, 0, 64, 3); draw(0, 2, 300, 2); draw(2, 2, 300, 3);
+        callf("gmp_randclear", 2);
+        /* bring the twin back in step */
+        callf("gmp_randseed_ui", 1, su[sk2] + (uint64_t)(j == 3 ? 41 : 0)); draw(1, 2, 130, 4); draw(1, 0, 64, 4); draw(1, 2, 300, 4); }
       if (step == 9 || step == 19) { callf("gmp_randinit_set", 2, 0); draw(0, 2, 77, 2); draw(2, 2, 77, 3); draw(1, 2, 77, 4); callf("gmp_randclear", 2); }
       if (what == 4 && step % 4 == 0) { callf("mpz_set", 2, 5); callf("mpz_urandomm", 2, 0, 2); callf("mpz_set", 3, 5); callf("mpz_urandomm", 3, 1, 3); }   /* rop == n */
     }
